@@ -795,7 +795,27 @@ impl Printable for ExprBase {
 			Self::ExprBinary(b) => {
 				p!(out, {b.lhs()} str(" ") {b.binary_operator()} str(" ") {b.rhs()});
 			}
-			Self::ExprUnary(u) => p!(out, {u.unary_operator()} {u.rhs()}),
+			Self::ExprUnary(u) => {
+				p!(out, { u.unary_operator() });
+				if u.rhs().is_some() {
+					p!(out, { u.rhs() });
+				} else {
+					// the parser does not wrap the operand in an EXPR node: it is an
+					// expression base followed by its suffixes
+					let mut found = false;
+					for node in u.syntax().children() {
+						if let Some(base) = ExprBase::cast(node.clone()) {
+							p!(out, { base });
+							found = true;
+						} else if let Some(suffix) = Suffix::cast(node) {
+							p!(out, { suffix });
+						}
+					}
+					if !found {
+						p!(out, { u.rhs() });
+					}
+				}
+			}
 			// Self::ExprSlice(s) => {
 			// 	p!(new: {s.expr()} {s.slice_desc()})
 			// }
